@@ -179,6 +179,7 @@ namespace pika::detail {
             // swap the list
             queue_type queue;
             queue.swap(queue_);
+            PIKA_VERIF_POST("cv.ab.swap", this, queue.size(), 0);
 
             // update reference to queue for all queue entries
             for (queue_entry& qe : queue) qe.q_ = &queue;
@@ -190,6 +191,7 @@ namespace pika::detail {
                 // remove item from queue before error handling
                 queue.front().ctx_.reset();
                 queue.pop_front();
+                PIKA_VERIF_POST("cv.ab.pop", this, queue.size(), 0);
 
                 if (PIKA_UNLIKELY(!ctx))
                 {
@@ -201,11 +203,13 @@ namespace pika::detail {
 
                 // unlock while notifying thread as this can suspend
                 ::pika::detail::unlock_guard<std::unique_lock<Mutex>> unlock(lock);
+                PIKA_VERIF_POINT("cv.ab.abort", this, 0, 0);
 
                 // forcefully abort thread, do not throw
                 ctx.abort();
             }
         }
+        PIKA_VERIF_POST("cv.ab.done", this, queue_.size(), 0);
     }
 
     // re-add the remaining items to the original queue
